@@ -200,11 +200,7 @@ def make_guard(model: Model):
 
     def guard(f: FuncInfo, node: ast.AST, what: str) -> Optional[str]:
         if what == "assert":
-            c = _comment_on_line(f, node.lineno)
-            if "mypy" in c or "type check" in c or "pyright" in c:
-                return "type-narrowing assert (documented as such in the source)"
-            t = node.test
-            # assert isinstance(...) / `x is not None` right after x was assigned a constructor/call result are narrowing asserts too
+            # comments ("for mypy") are never evidence: a narrowing assert that cannot fail is argued in the triage table of the rule module
             return None
         if what == "subscript":
             sub = node
